@@ -51,6 +51,7 @@ impl<R: Read + Seek> ReadBox<&mut R> for VpccBox {
             let b = reader.read_u8()?;
             (b >> 4, b << 4 >> 5, b & 0x01 == 1)
         };
+        let color_primaries: u8 = reader.read_u8()?;
         let transfer_characteristics: u8 = reader.read_u8()?;
         let matrix_coefficients: u8 = reader.read_u8()?;
         let codec_initialization_data_size: u16 = reader.read_u16::<BigEndian>()?;
@@ -65,7 +66,7 @@ impl<R: Read + Seek> ReadBox<&mut R> for VpccBox {
             bit_depth,
             chroma_subsampling,
             video_full_range_flag,
-            color_primaries: 0,
+            color_primaries,
             transfer_characteristics,
             matrix_coefficients,
             codec_initialization_data_size,
